@@ -1,4 +1,5 @@
 """C09 - DataCap is conserved and each allocation is spent exactly once."""
+import re
 from core import *
 from rules import *
 import sends as sendsmod
@@ -107,6 +108,13 @@ def run(prog, rep, tier, cfg):
             r = CC.reach([0], removed=[X.edge(c, arm)])
             non_false = [t for t in tb if t in r]
             okc = okc or not non_false
+        if not (okc or last) and b[0] in ('F:Allocation.term_min', 'F:Allocation.term_max'):
+            # both term bounds at once: `(term_min..=term_max).contains(&lifetime)` as the result (or as a tested condition)
+            for q in CC.calls:
+                if re.search(r'RangeInclusive<[^>]*>::contains$|RangeInclusive::<[^>]*>::contains$|range::RangeInclusive.*::contains$', q.callee or ''):
+                    ra, xa = prog.slicer.operand(CC, q.args[0]), prog.slicer.operand(CC, q.args[1])
+                    if has_all(ra, ['F:Allocation.term_min', 'F:Allocation.term_max']) and has_all(xa, ['P:5', 'P:4']) and not has_atom(xa, 'F:Allocation.term_min'):
+                        last = True
         rep.need('K6b', 'can_claim_alloc:conjunct#%d:%s' % (i, b[0].split('.')[-1]), okc or last, 'a true result requires %s %s %s' % (a, rel, b), X.loc(CC))
     # ---- expiry -> refund
     RE = X.fn('Actor::remove_expired_allocations', VR)
@@ -172,7 +180,7 @@ def run(prog, rep, tier, cfg):
     X.guard('K6b', 'hook:amount-matches-requests', UH, txs, m_rel('ne', ['F:AllocationRequest.size', 'F:Claim.size'], ['C:tokens_to_datacap', 'F:FRC46TokenReceived.amount'], False),
             'sum of request sizes != tokens received => Err')
     X.accumulates('K10', 'hook:request-sizes-summed', UH, ['F:AllocationRequest.size'], 'datacap_total += size of each allocation request')
-    X.accumulates('K10', 'hook:extension-sizes-summed', UH, ['F:Claim.size'], 'datacap_total / extension_total += size of each extended claim', min_sites=2)
+    X.accumulates('K10', 'hook:extension-sizes-summed', UH, ['F:Claim.size'], 'the burnt extension total += size of each extended claim', min_sites=1)
     bn = [c for c in UH.calls if callee_is('burn')(c)]
     rep.need('K5', 'hook:extension-burn', len(bn) == 1 and result_fate(UH, bn[0]) == 'try', 'tokens spent on extensions are burnt', X.loc(UH))
     for c in bn:
@@ -201,10 +209,11 @@ def run(prog, rep, tier, cfg):
             if not tk:
                 continue
             if key == 'transfer':
-                X.guard('K6b', 'datacap:transfer:governor-involved', g, [tk[0].bb],
-                        m_boolatoms(['C:MessageInfo::caller', 'F:State.governor'], True), what)
-                rep.need('K6b', 'datacap:transfer:to-governor-disjunct', bool(X.find_conds(g, m_rel('eq', ['C:Runtime::resolve_address', 'F:TransferParams.to'], ['F:State.governor'], True))),
-                         'the other admissible case is to == governor (resolved)', X.loc(g))
+                # a disjunction: the transfer is reachable only if from (= caller) == governor or to (resolved) == governor - stated
+                # over both comparisons at once, whether they are materialised in one bool (`allowed`) or tested one after the other
+                X.guard_any('K6b', 'datacap:transfer:governor-involved', g, [tk[0].bb],
+                            [m_rel('eq', ['C:MessageInfo::caller'], ['F:State.governor'], True, a_forbid=['F:TransferParams.to']),
+                             m_rel('eq', ['C:Runtime::resolve_address', 'F:TransferParams.to'], ['F:State.governor'], True)], what)
                 X.arg_has('K10', 'datacap:transfer:from-is-caller', tk[0], 1, ['C:MessageInfo::caller'], 'tokens leave the caller\'s own balance', narrow=False)
             else:
                 X.guard('K6b', 'datacap:transfer_from:to-governor', g, [tk[0].bb], m_rel('eq', ['C:Runtime::resolve_address'], ['F:State.governor'], True), what)
